@@ -198,6 +198,8 @@ type Node struct {
 	DefaultPlanner bool
 
 	snaps map[uint64]*inflight
+
+	stuck bool              // an engine call never returned (watchdog): the store is left alone
 	names map[string]UnitSt // real "generation-sequence" -> the model's, from the last CheckLayout
 }
 
@@ -248,6 +250,9 @@ func (n *Node) Reopen() error {
 
 // Close closes the store and removes the directory.
 func (n *Node) Close() {
+	if n.stuck {
+		return
+	}
 	if n.Store != nil {
 		n.Store.Close()
 	}
@@ -403,7 +408,16 @@ func (n *Node) Delete(id uint64, p int) error {
 	}
 	h, t := PointKey(p)
 	it := &seriesIter{elems: []seriesElem{{name: []byte(Measurement), tags: models.NewTags(map[string]string{"host": h})}}}
-	return sh.DeleteSeriesRange(it, t, t)
+	done := make(chan error, 1)
+	go func() { done <- sh.DeleteSeriesRange(it, t, t) }()
+	select {
+	case err := <-done:
+		return err
+	case <-time.After(90 * time.Second):
+		// a delete that never returns holds engine locks: the store cannot be closed either
+		n.stuck = true
+		return fmt.Errorf("watchdog: DeleteSeriesRange did not return within 90 s")
+	}
 }
 
 // Compact runs a full compaction of all TSM files of the shard with the real Compactor and installs the
